@@ -337,6 +337,18 @@ def ob_mixture():
     return out
 
 
+def ob_accessors():
+    """'their parameter accessors return what the constructor was given': the constructor round trips of C11 (raw parameterisation, exp overflow
+    modelled), reported under C05 as well"""
+    from . import c11
+    out = []
+    for r in c11.ob_roundtrips():
+        r = dict(r)
+        r["name"] = r["name"].replace("C11/", "C05/accessors/")
+        out.append(r)
+    return out
+
+
 def obligations(tier, seed):
     names = ["Normal", "Normal()", "Normal(bcast)", "LogNormal", "Uniform", "Gumbel", "Cauchy", "StudentT", "Laplace", "Exponential", "Logistic", "MultivariateNormal"]
-    return [dict(name=n, func="c05:ob_family", kwargs=dict(name=n), cost=3, replay=dict(func="c05:replay_family", kwargs=dict(name=n))) for n in names] + [dict(name="mixture", func="c05:ob_mixture", kwargs={}, cost=5)]
+    return [dict(name=n, func="c05:ob_family", kwargs=dict(name=n), cost=3, replay=dict(func="c05:replay_family", kwargs=dict(name=n))) for n in names] + [dict(name="mixture", func="c05:ob_mixture", kwargs={}, cost=5), dict(name="accessors", func="c05:ob_accessors", kwargs={}, cost=5)]
